@@ -49,8 +49,8 @@ def cases(tier, seed):
                         # the model itself or on a deep copy whose hyper-parameters have moved since
                         "reg": rnd.choice(["closure", "name"]), "copy": rnd.choice([False, False, True]),
                     }
-        for t, rank in ((2, 0), (3, 1), (2, 2)):
-            yield {"kernel": KERNELS[rep % 2], "lik": "mt", "t": t, "rank": rank, "n": rnd.choice([1, 4]), "d": 1, "batch": [], "priors": rnd.choice(["none", "independent"]),
+        for t, rank, flags in ((2, 0, [True, True]), (3, 1, [True, True]), (2, 2, [True, True]), (3, 1, [False, True]), (3, 3, [False, True]), (2, 0, [True, False]), (3, 2, [False, True])):
+            yield {"kernel": KERNELS[rep % 2], "lik": "mt", "t": t, "rank": rank, "mt_flags": flags, "n": rnd.choice([1, 4]), "d": 1, "batch": [], "priors": rnd.choice(["none", "independent"]),
                    "objective": "mll", "path": "cholesky", "seed": rnd.randrange(10**6)}
         # single observation / as many observations as batch elements, under batch shapes (squeeze hazards)
         for n_, b_ in ((1, [2]), (1, [3, 2]), (1, [2, 2]), (2, [2]), (3, [3]), (2, [3, 1])):
@@ -153,7 +153,8 @@ def _build(case, g):
     if case["lik"] == "mt":
         t = case["t"]
         y = util.randn(g, n, t)
-        lik = gpytorch.likelihoods.MultitaskGaussianLikelihood(num_tasks=t, rank=case["rank"])
+        flags = case.get("mt_flags", [True, True])  # (has_global_noise, has_task_noise)
+        lik = gpytorch.likelihoods.MultitaskGaussianLikelihood(num_tasks=t, rank=case["rank"], has_global_noise=flags[0], has_task_noise=flags[1])
         model = util.MTGP(X, y, lik, t, max(1, case["rank"]), case["kernel"], d)
     else:
         y = util.randn(g, *b, n)
@@ -217,7 +218,11 @@ def _dense_logp(model, lik, X, y, mt):
     n = X.shape[-2]
     if mt:
         t = y.shape[-1]
-        D = (torch.diag_embed(lik.task_noises) if lik.rank == 0 else lik.task_noise_covar) + lik.noise * torch.eye(t)
+        D = torch.zeros(t, t)
+        if getattr(lik, "has_task_noise", True):
+            D = D + (torch.diag_embed(lik.task_noises) if lik.rank == 0 else lik.task_noise_covar)
+        if getattr(lik, "has_global_noise", True):
+            D = D + lik.noise * torch.eye(t)
         A = K + torch.kron(torch.eye(n), D)
         return util.mvn_logpdf(y.reshape(-1), mx.reshape(-1), A), n * t
     if isinstance(lik, gpytorch.likelihoods.FixedNoiseGaussianLikelihood):
@@ -251,10 +256,19 @@ def run_case(case, ctx):
     g = util.gen(case["seed"])
     if case["objective"] == "sum_mll":
         return _sum_mll(case, ctx, g)
+    early = None
     if case["priors"] == "ctor":
         model, lik, X, y, ref_priors = _build_ctor(case, g)
     else:
         model, lik, X, y = _build(case, g)
+        if case["seed"] % 2 == 0 and case["objective"] in ("mll", "loo") and not case.get("copy"):
+            # the objective OBJECT exists and has been evaluated before the priors are registered (a user adding priors
+            # while experimenting): its later values still contain every registered prior
+            model.train()
+            lik.train()
+            early = (gpytorch.mlls.ExactMarginalLogLikelihood if case["objective"] == "mll" else gpytorch.mlls.LeaveOneOutPseudoLikelihood)(lik, model)
+            with torch.no_grad():
+                early(model(X), y)
         ref_priors = attach_priors(model, case["priors"], g, case.get("reg", "closure"))
     mt = case["lik"] == "mt"
     if case.get("copy"):
@@ -286,12 +300,12 @@ def run_case(case, ctx):
     if obj == "loo":
         with torch.no_grad():
             ref = _loo_literal(model, lik, X, y) + _prior_sum(ref_priors, len(b)) / case["n"]
-        loo = gpytorch.mlls.LeaveOneOutPseudoLikelihood(lik, model)
+        loo = early if early is not None else gpytorch.mlls.LeaveOneOutPseudoLikelihood(lik, model)
         got = loo(model(X), y)
         ctx.close("loo_value", got, ref, "direct", cls=cls)
         ctx.cell({k: v for k, v in case.items() if k != "seed"}, nontrivial=case["n"] >= 2)
         return
-    mll = gpytorch.mlls.ExactMarginalLogLikelihood(lik, model)
+    mll = early if early is not None else gpytorch.mlls.ExactMarginalLogLikelihood(lik, model)
     ref = dense_objective()
     gref = torch.autograd.grad(ref.sum(), params, allow_unused=True)
     if case["path"] == "cg":
